@@ -106,7 +106,16 @@ type Chain struct {
 func (c *Chain) Height() int64 { return c.TC.App.LastBlockHeight() }
 
 // Ctx returns an uncached context on the committed state, with the header of the block being proposed.
-func (c *Chain) Ctx() sdk.Context { return c.TC.GetContext() }
+// Reads go through a cache-wrapped context whose writes are discarded: some keeper "getters" have side effects
+// (e.g. GetConsumerInfractionUpdateTime removes the entry it finds), and the harness must never alter chain state.
+func (c *Chain) Ctx() sdk.Context {
+	ctx, _ := c.TC.GetContext().CacheContext()
+	return ctx
+}
+
+// WriteCtx is the uncached context on the committed store; used only for deliberate out-of-band writes
+// (a malicious consumer binary enqueueing hand-crafted packets).
+func (c *Chain) WriteCtx() sdk.Context { return c.TC.GetContext() }
 
 func (c *Chain) OnBlock(f func(c *Chain, req *abci.RequestFinalizeBlock, res *abci.ResponseFinalizeBlock, txs []TxOutcome)) {
 	c.hooks = append(c.hooks, f)
